@@ -151,3 +151,106 @@ Definition obs_outcome (o : outcome) : obs :=
 (* fuel: the walk is well-founded in the size of the hash term (C03_terminates) *)
 Definition run (gvk : N) (tc : list (bt * cert) * cert) : obs :=
   let '(tbl, c) := tc in obs_outcome (verify_chain (S (bt_size (hash c))) gvk (lookup tbl) c).
+
+(* ---------- mithril-client: certificate_client/verify.rs (MithrilCertificateVerifier::verify_chain) ----------
+   The client walks the chain itself, one [verify_certificate] of the verifier above per step, and
+   (feature `unstable`, used by the CLI and WASM clients) keeps a cache `certificate hash -> previous
+   hash` of the steps it validated: MemoryCertificateVerifierCache (a HashMap: the newest entry for a
+   key wins; entries do not expire during a run of the harness).  The cache is shared state between
+   calls of verify_chain, so the model takes and returns it. *)
+Definition vcache := list (bt * bt).
+Fixpoint cache_get (k : vcache) (h : bt) : option bt :=
+  match k with
+  | [] => None
+  | (a, b) :: r => if bt_eqb a h then Some b else cache_get r h
+  end.
+Definition cache_put (k : vcache) (h ph : bt) : vcache := (h, ph) :: k.
+
+(* verify_without_cache: one step of the common verifier; the previous certificate it hands back has
+   only served as a reference, so its hash is checked against its content before the step is recorded
+   in the cache (fix commit; only when a cache is configured); genesis certificates are never recorded *)
+Definition verify_without_cache (use : bool) (gvk : N) (prov : bt -> option cert) (k : vcache) (c : cert)
+  : result (option cert) * vcache :=
+  match verify_certificate gvk prov c with
+  | Ok pr =>
+      match (match pr with Some p => if use then verify_hash p else Ok tt | None => Ok tt end) with
+      | Ok _ => (Ok pr, if use && negb (is_genesis c) then cache_put k (hash c) (prev c) else k)
+      | Err => (Err, k)
+      | Panic => (Panic, k)
+      end
+  | Err => (Err, k)
+  | Panic => (Panic, k)
+  end.
+
+(* CertificateToVerify *)
+Inductive to_verify := Downloaded (c : cert) | ToDownload (h : bt).
+Definition tv_hash (x : to_verify) : bt := match x with Downloaded c => hash c | ToDownload h => h end.
+
+(* second loop of verify_chain: verify_with_cache_enabled.  A cache hit skips the certificate (it is
+   not even downloaded when it was reached through the cache); a certificate downloaded for a cached
+   previous hash must carry that hash (fix commit) *)
+Fixpoint client_cached (fuel : nat) (use : bool) (gvk : N) (prov : bt -> option cert) (k : vcache) (x : to_verify)
+  : outcome * vcache :=
+  match fuel with
+  | O => (OutOfFuel, k)
+  | S f =>
+      match (if use then cache_get k (tv_hash x) else None) with
+      | Some ph => client_cached f use gvk prov k (ToDownload ph)
+      | None =>
+          match (match x with
+                 | Downloaded c => Some c
+                 | ToDownload h => match prov h with
+                                   | Some c => if bt_eqb (hash c) h then Some c else None
+                                   | None => None
+                                   end
+                 end) with
+          | None => (Reject, k)
+          | Some c =>
+              match verify_without_cache use gvk prov k c with
+              | (Ok (Some p), k') => client_cached f use gvk prov k' (Downloaded p)
+              | (Ok None, k') => (Accept, k')
+              | (Err, k') => (Reject, k')
+              | (Panic, k') => (Crash, k')
+              end
+          end
+      end
+  end.
+
+(* first loop of verify_chain: no cache until the walk leaves the epoch of the start certificate *)
+Fixpoint client_uncached (fuel : nat) (use : bool) (gvk : N) (prov : bt -> option cert) (k : vcache)
+  (start_epoch : N) (c : cert) : outcome * vcache :=
+  match fuel with
+  | O => (OutOfFuel, k)
+  | S f =>
+      match verify_without_cache use gvk prov k c with
+      | (Ok (Some p), k') =>
+          if epoch p =? start_epoch then client_uncached f use gvk prov k' start_epoch p
+          else client_cached f use gvk prov k' (Downloaded p)
+      | (Ok None, k') => (Accept, k')
+      | (Err, k') => (Reject, k')
+      | (Panic, k') => (Crash, k')
+      end
+  end.
+
+(* CertificateClient::verify_chain(hash): fetch the certificate served for [h], then walk *)
+Definition client_verify_chain (fuel : nat) (use : bool) (gvk : N) (prov : bt -> option cert) (k : vcache) (h : bt)
+  : outcome * vcache :=
+  match prov h with
+  | None => (Reject, k)
+  | Some c => client_uncached fuel use gvk prov k (epoch c) c
+  end.
+
+(* a history of calls on one client (one cache): each call has its own provider *)
+Inductive client_op := CRun (tbl : list (bt * cert)) (h : bt) | CReset.
+Definition client_fuel (tbl : list (bt * cert)) (h : bt) : nat :=
+  match lookup tbl h with Some c => S (bt_size (hash c)) | None => 1 end.
+Fixpoint client_history (use : bool) (gvk : N) (k : vcache) (ops : list client_op) : list obs :=
+  match ops with
+  | [] => []
+  | CReset :: r => client_history use gvk [] r
+  | CRun tbl h :: r =>
+      let '(o, k') := client_verify_chain (client_fuel tbl h) use gvk (lookup tbl) k h in
+      obs_outcome o :: client_history use gvk k' r
+  end.
+(* the case term: all the calls share the certificates bound in front of the list of calls *)
+Definition run_client (use : bool) (gvk : N) (ops : list client_op) : obs := OL (client_history use gvk [] ops).
